@@ -130,5 +130,23 @@ func init() {
 				return
 			}
 		}
+		// with a yield point in every storage callback a goroutine can be parked inside
+		// the storage (querier open) when the cancellation arrives
+		for _, s := range catalogue() {
+			s := s
+			switch s.Name[:3] {
+			case "S1:", "S4b", "S4a", "S6a", "S7:":
+			default:
+				continue
+			}
+			s.Name += "/store yields"
+			s.StoreYield = true
+			s.Case.W = core.Range(10000, 30000, 1)
+			s.DQuick, s.DThorough = 1, 2
+			runSched(c, &s, "C17", []string{"ctx-cancel", "query-cancel"}, acct)
+			if c.Expired() || c.Rep.HarnessErr != "" {
+				return
+			}
+		}
 	})
 }
